@@ -45,7 +45,23 @@ func c05Check(src []rune, part string) *mc.Failure {
 				f = &mc.Failure{Kind: "panic", Bucket: "panic", Case: cs(), Observed: fmt.Sprint(p)}
 			}
 		}()
-		p := syntax.NewParser(append([]rune{}, src...), zh.NewParserZH())
+		// the text is handed over as a slice of a larger array (a program cut out of a buffer):
+		// neither the text nor the element behind it may be written to
+		const guard = rune(0x7E57)
+		buf := make([]rune, len(src)+1)
+		copy(buf, src)
+		buf[len(src)] = guard
+		defer func() {
+			if f != nil {
+				return
+			}
+			if buf[len(src)] != guard {
+				f = &mc.Failure{Kind: "mismatch", Bucket: "wrote-behind-source", Case: cs(), Expected: "the array element behind the source text is left alone", Observed: fmt.Sprintf("it was overwritten with %U", buf[len(src)])}
+			} else if string(buf[:len(src)]) != string(src) {
+				f = &mc.Failure{Kind: "mismatch", Bucket: "wrote-into-source", Case: cs(), Expected: "the source text is left as given", Observed: fmt.Sprintf("it now reads %q", string(buf[:len(src)]))}
+			}
+		}()
+		p := syntax.NewParser(buf[:len(src)], zh.NewParserZH())
 		tree, err := p.Parse()
 		if err == nil {
 			if tree == nil {
@@ -151,7 +167,7 @@ func init() {
 	mc.Register(&mc.Check{
 		ID:    "C05",
 		Level: "exploration",
-		Rule:  "E1 exhaustive: (a) every sequence of <= L symbols over a 35-symbol alphabet (6 keywords as units, all 12 punctuation marks, quotes, backtick, space, TAB, CR, LF, newline+indent, a name, a digit, + = #, NUL, U+0085, an astral character); (b) for every program of a corpus of valid renderings: truncation at every offset, deletion and duplication of every rune, insertion of every alphabet symbol at every offset (and all pairs of deletions on a subset); (c) the same inputs through ExecVarInputText, each text submitted twice in one process (termination; the second submission is answered like the first); (f) statement headers: every small expression (12 kinds) alone, in pairs and (6 kinds) in triples in the name slots of 以…遍历, 令, 输入, 得到, 如何, 恒为, 定义, 抛出; (e) deep nesting: 6 opening constructs ({ 【 a call, 以-chain, unary minus, 1 + {) repeated 1 .. 2 000 000 times around one operand, closed and unclosed: a tree or a positioned syntax error, and the process survives; (d) long lines: 14 faulty tails behind 6 kinds of padding (a long text, a long name, a long sum, blanks, a long comment, a long list) of every width 0..160 (0..400 thorough) on the only line, on the last line and on a middle line. Oracle: terminates (watchdog), returns a tree xor a *SyntaxError with code != 0 and 0 <= position <= length, any returned tree passes the completeness walker, DisplayError succeeds and quotes a line of the source. Distinct by construction; non-trivial = not parsed successfully or longer than one symbol.",
+		Rule:  "E1 exhaustive: (a) every sequence of <= L symbols over a 35-symbol alphabet (6 keywords as units, all 12 punctuation marks, quotes, backtick, space, TAB, CR, LF, newline+indent, a name, a digit, + = #, NUL, U+0085, an astral character); (b) for every program of a corpus of valid renderings: truncation at every offset, deletion and duplication of every rune, insertion of every alphabet symbol at every offset (and all pairs of deletions on a subset); (c) the same inputs through ExecVarInputText, each text submitted twice in one process (termination; the second submission is answered like the first); (f) statement headers: every small expression (12 kinds) alone, in pairs and (6 kinds) in triples in the name slots of 以…遍历, 令, 输入, 得到, 如何, 恒为, 定义, 抛出; (e) deep nesting: 6 opening constructs ({ 【 a call, 以-chain, unary minus, 1 + {) repeated 1 .. 2 000 000 times around one operand, closed and unclosed: a tree or a positioned syntax error, and the process survives; (d) long lines: 14 faulty tails behind 6 kinds of padding (a long text, a long name, a long sum, blanks, a long comment, a long list) of every width 0..160 (0..400 thorough) on the only line, on the last line and on a middle line. Oracle: terminates (watchdog), returns a tree xor a *SyntaxError with code != 0 and 0 <= position <= length, any returned tree passes the completeness walker, DisplayError succeeds and quotes a line of the source; the text is handed over as a slice of a larger array and neither it nor the guard element behind it is written to. Distinct by construction; non-trivial = not parsed successfully or longer than one symbol.",
 		Assumptions: []string{
 			"a recovered Go runtime error leaking out of Parser.Parse as the error value is counted as a violation (it is not a syntax error with a position)",
 			"hang = no result for 20 s on an input whose normal cost is microseconds; confirmed in a fresh process",
